@@ -160,11 +160,8 @@ def start_recipes(mg, rng, n):
             out.append(('rect', c10.with_surfaces(mg, r, rng) if rng.random() < 0.6 else r))
         elif m < 0.75:
             f = rng.choice(['g2', 'g4', 'g5', 'g6', 'g7'])        # shipped geometries of 3-/4-sided columns
-            gfull = mg.mulgrid(str(core.REPO / ('tests/mulgrid/%s.dat' % f)))
-            b = gfull.bounds
             out.append((f, {'kind': 'file', 'path': 'tests/mulgrid/%s.dat' % f,
-                            'reduce': [float(b[0][0] + rng.random() * (b[1][0] - b[0][0])),
-                                       float(b[0][1] + rng.random() * (b[1][1] - b[0][1])), rng.randint(6, 60)]}))
+                            'patch': [rng.random(), rng.random(), rng.randint(6, 60)]}))
         elif m < 0.85:
             label, r = rng.choice(c10.small_recipes())
             out.append((label, r))
@@ -178,8 +175,16 @@ def start_recipes(mg, rng, n):
 def sequence_for(mg, recipe, rng):
     """a short history ending in refining operations: [earlier refinement], then refine / split / decompose /
     triangulate / refine_layers, [file round trip], [again]"""
+    patch = recipe.pop('patch', None)
     g = G.build(mg, recipe)
     ops = []
+    if patch is not None:
+        b = g.bounds
+        op = G.patch_op(g, float(b[0][0] + patch[0] * (b[1][0] - b[0][0])), float(b[0][1] + patch[1] * (b[1][1] - b[0][1])), patch[2])
+        ops.append(op)
+        g, exc = G.apply_op(mg, g, op)
+        if exc is not None:
+            return ops
     for round_ in range(rng.randint(1, 3)):
         cols = sorted(g.columnlist, key=G.ckey)
         if len(cols) > 300:
@@ -259,6 +264,8 @@ def run(ctx, scale=1.0, model=True):
         for v in obs.violations:
             res.violations.append(dict(key=v['key'], what='%s: %s' % (label, v['what']),
                                        case={'recipe': recipe, 'ops': ops[:v['step'] + 1]}))
+        if not trace and not obs.checked:
+            res.count('start-inconsistent')
         if obs.checked:
             res.distinct.add(json.dumps([recipe, ops], sort_keys=True))
         for k, c in obs.stats.items():
